@@ -27,6 +27,7 @@ struct EngStats {
         uint64_t ring_pushes = 0;
         uint64_t thread_switches = 0, blocked_on_mutex = 0;
         uint64_t iso_checks = 0;
+        uint64_t roundtrip_skipped = 0;
         bool overrun = false;
         bool peek_stub = false;
 };
